@@ -417,7 +417,7 @@ func (w *World) everyTXIDOracle(rc *Recorder, logical bool) {
 							// F9b: a sync/checkpoint call failed after its PRAGMA (SQLITE_BUSY on the sequence
 							// bump under an open write transaction), the position stayed in the old WAL
 							// generation, and the snapshot read the NEW generation up to the stale offset
-							culprit = "level9-snapshot-of-other-wal-generation-after-failed-checkpoint(F9b)"
+							culprit = "level9-snapshot-of-other-wal-generation-after-failed-checkpoint(F9b):" + w.lastFailed
 						}
 					} else {
 						culprit = "compacted-file-differs-from-l0-chain"
